@@ -195,6 +195,11 @@ def cases(tier, seed):
     # hinged connection of two beam members in 2D and in 3D (default = every rotation released, or the named axis released)
     for dim, kw in ((2, {}), (3, {}), (3, {"unknowns": ["rz"]})):
         out.append({"kind": "hinge", "dim": dim, "kwargs": kw})
+    # a joint where m members meet: the m coincident nodes `mesh.Nodes_Point` returns, handed to one connection call
+    for dim in (2, 3):
+        for m in JOINT_MEMBERS:
+            for conn in JOINT_CONNS:
+                out.append({"kind": "joint", "dim": dim, "members": m, "conn": conn})
     # conditions entered in stages on one live simulation holding Lagrange conditions / connections
     for problem in ("elastic", "thermal", "beam"):
         for resol in [r for r in RESOLS[problem] if r != "elim"]:
@@ -212,7 +217,9 @@ def describe(tier, seed):
     return {
         "rule": "E1: problem x BC program (every ordered selection of 1..3 of 6 atoms, A n B != {}) x ground x orphan x resolution x mode (x mesh); "
                 "inside a case one freshly built simulation is solved with every installed solver backend, each time from the reset start state. "
-                "non-trivial = the reference solution moves free dofs (the program was solvable); distinct = fingerprint of (configuration, reference solution, per-solver outcomes)",
+                "non-trivial = the reference solution moves free dofs (the program was solvable); distinct = fingerprint of (configuration, reference solution, per-solver outcomes). "
+                "kind 'joint': dim (2, 3) x number of members meeting in one point (2, 3, 4: mesh.Nodes_Point gives as many coincident nodes) x connection "
+                "(add_connection_fixed / add_connection_hinged on all of them in one call), against the dense KKT solution under pairwise ties",
         "exhaustive": True,
         "bound": ("thorough: all %d programs x the full product of (ground, orphan, resolution, mode, mesh) per problem; implicit time schemes: all programs x ground x orphan x scheme" % nprog)
                  if tier == "thorough" else
@@ -221,7 +228,8 @@ def describe(tier, seed):
                   "scheme, 3-atom programs x the first scheme; every installed solver in every case except Lagrange resolutions and beam-Newton (scipy and cg)" % nprog),
         "alphabet": {"problems": len(PROBLEMS), "programs": nprog, "atoms": len(ATOMS), "ground": 3, "orphan": 2,
                      "resolution": {p: len(RESOLS[p]) for p in PROBLEMS}, "mode": {p: len(MODES[p]) + len(DYN_MODES.get(p, [])) for p in PROBLEMS},
-                     "mesh": {p: len(MESHES[p]) if tier == "thorough" else 1 for p in PROBLEMS}, "solvers": EXPECTED_SOLVERS},
+                     "mesh": {p: len(MESHES[p]) if tier == "thorough" else 1 for p in PROBLEMS}, "solvers": EXPECTED_SOLVERS,
+                     "joint_members": JOINT_MEMBERS, "joint_connections": JOINT_CONNS},
         "assumptions": [
             "pypardiso, petsc (and mumps/superlu through petsc) are not installed: those SolverType members are not exercised; MPI paths not exercised",
             "meshes of <= 40 dofs with cond of the reduced system <= 1e8 (guard, skip-with-count otherwise)",
@@ -940,6 +948,100 @@ def _run_hinge(case):
     return {"violations": v, "fingerprint": fp("hinge", case, u), "nontrivial": True, "transitions": 2, "outcome": "violation" if v else "ok"}
 
 
+JOINT_MEMBERS = [2, 3, 4]
+JOINT_CONNS = ["fixed", "hinged"]
+# unit directions of the members leaving the joint (2D: the in-plane part, normalised)
+JOINT_DIRS = [(-1.0, 0.0, 0.0), (0.0, 0.6, 0.8), (1.0, 0.0, 0.0), (0.5, -0.5, -0.5 ** 0.5)]
+
+
+def _run_joint(case):
+    """m members meet in one point: `mesh.Nodes_Point(joint)` gives m coincident nodes (one per member), handed as they come to
+    add_connection_fixed / add_connection_hinged. Far ends clamped, force and moment on the joint node of the first member. The solution ties
+    the connected unknowns of ALL the nodes of the joint and is the dense KKT solution of K (twin without conditions) under the pairwise
+    constraints u(node_0) = u(node_i)."""
+    from EasyFEA import ElemType, Mesher, Models, Simulations
+    from EasyFEA.Geoms import Domain, Line, Point
+
+    dim, m, conn = case["dim"], case["members"], case["conn"]
+    key = dict(kind="joint", dim=dim, members=m, conn=conn)
+    E, nu, L = 210.0, 0.3, 4.0
+    P = np.array([L, 0.0, 0.0])
+    v, ntr = [], 0
+    with contextlib.redirect_stdout(io.StringIO()):
+        section = Mesher().Mesh_2D(Domain(Point(-0.3, -0.5), Point(0.3, 0.5)))
+        beams, ends = [], []
+        for d in JOINT_DIRS[:m]:
+            d = np.array(d if dim == 3 else (d[0], d[1], 0.0))
+            d = d / np.linalg.norm(d)
+            y = np.cross([0.0, 0.0, 1.0], d)
+            y = y / np.linalg.norm(y) if np.linalg.norm(y) > 1e-8 else np.array([1.0, 0.0, 0.0])
+            Q = P + L * d
+            ends.append(Q)
+            beams.append(Models.Beam.Isotropic(dim, Line(Point(*P), Point(*Q), L / 2), section, E, nu, yAxis=tuple(y)))
+        mesh = Mesher().Mesh_Beams(beams, ElemType.SEG2)
+        structure = Models.Beam.BeamStructure(beams)
+        twin = Simulations.Beam(mesh, structure)
+        K = twin.Get_K_C_M_F()[0].toarray().astype(float)
+        simu = Simulations.Beam(mesh, structure)
+        mesh = simu.mesh
+        unk = list(simu.Get_unknowns())
+        d_n = len(unk)
+        n = mesh.Nn * d_n
+        joint = np.asarray(mesh.Nodes_Point(Point(*P)))
+        if K.shape != (n, n) or joint.size != m:
+            return {"violations": [], "fingerprint": fp("joint-mesh", case), "nontrivial": False, "transitions": 1, "outcome": "skipped",
+                    "skipped": f"the mesher gave {joint.size} nodes at the joint of {m} members (K {K.shape})"}
+        entries = []
+        for Q in ends:
+            nd = mesh.Nodes_Point(Point(*Q))
+            simu.add_dirichlet(nd, [0.0] * d_n, unk)
+            entries += [(int(q) * d_n + c, 0.0) for q in nd for c in range(d_n)]
+        load = {"x": 0.3, "y": -0.5, "z": 0.2, "rx": 0.1, "ry": -0.15, "rz": 0.25}
+        simu.add_neumann(joint[:1], [load[u] for u in unk], unk)
+        F = np.zeros(n)
+        F[int(joint[0]) * d_n + np.arange(d_n)] = [load[u] for u in unk]
+        ntr += m + 1
+        tied = list(range(d_n)) if conn == "fixed" else list(range(dim))
+        lspecs = [([int(joint[0]) * d_n + c, int(nd) * d_n + c], [1.0, -1.0], 0.0) for nd in joint[1:] for c in tied]
+        ref = reference(K, F, entries, lspecs, [])
+        err = None
+        try:
+            (simu.add_connection_fixed if conn == "fixed" else simu.add_connection_hinged)(joint)
+            ntr += 1
+        except Exception as e:
+            err = f"add_connection_{conn}({joint.size} nodes) raised {type(e).__name__}: {str(e)[:160]}"
+    if err is None:
+        spec = Spec()
+        spec.problem = "beam"
+        u, serr, _ = solve_impl(simu, simu.problemType, spec)
+        ntr += 1
+        if serr:
+            err = f"Solve() after add_connection_{conn} on the {joint.size} coincident nodes {joint.tolist()} raised {serr}"
+    if ref["u"] is None or ref["cond"] > COND_MAX:
+        return {"violations": [], "fingerprint": fp("joint-singular", case), "nontrivial": False, "transitions": ntr, "outcome": "skipped",
+                "skipped": "reference KKT system singular / ill conditioned"}
+    uref = ref["u"]
+    uscale = np.max(np.abs(uref))
+    if err:
+        v.append(viol("solve_raised", f"{dim}D joint of {m} members: {err}", **key))
+        return {"violations": v, "fingerprint": fp("joint-raised", case), "nontrivial": True, "transitions": ntr, "outcome": "violation"}
+    if u.shape != (n,) or not np.all(np.isfinite(u)):
+        v.append(viol("nonfinite", f"{dim}D joint of {m} members ({conn}): solution has shape {u.shape}, finite={bool(np.all(np.isfinite(u)))}", **key))
+        return {"violations": v, "fingerprint": fp("joint-nonfinite", case), "nontrivial": True, "transitions": ntr, "outcome": "violation"}
+    e = np.max(np.abs(ref["L"] @ u - ref["g"]))
+    if e > TOL_EXACT * uscale:
+        v.append(viol("connection", f"{dim}D joint of {m} members ({conn}): the nodes {joint.tolist()} do not share the connected unknowns (gap {e:.3e}, scale {uscale:.2e})", **key))
+    cset = ref["cset"]
+    if np.max(np.abs(u[cset])) > TOL_EXACT * uscale:
+        v.append(viol("constraint", f"{dim}D joint of {m} members ({conn}): a clamped dof holds {np.max(np.abs(u[cset])):.3e}", **key))
+    e = np.max(np.abs(u - uref)) / uscale
+    if e > TOL_DIRECT:
+        v.append(viol("agreement", f"{dim}D joint of {m} members ({conn}): solution differs from the dense KKT reference by {e:.3e} (relative to max|u|)", **key))
+    rot = np.abs(u.reshape(-1, d_n)[joint, -1] - u[int(joint[0]) * d_n + d_n - 1]).max()
+    return {"violations": v, "fingerprint": fp("joint", case, uref, bool(rot > 1e-9 * uscale)), "nontrivial": bool(uscale > 0), "transitions": ntr,
+            "outcome": "violation" if v else "ok"}
+
+
 def _run_krylov_hard(case):
     """a slender cantilever (aspect ratio 20, 123 nodes): every installed Krylov backend either returns a field that satisfies the assembled
     equations on the free dofs to its own tolerance, or refuses clearly; a non-converged iterate returned as 'the solution' is a violation"""
@@ -981,6 +1083,8 @@ def run_case(case):
         return _run_krylov_hard(case)
     if case.get("kind") == "hinge":
         return _run_hinge(case)
+    if case.get("kind") == "joint":
+        return _run_joint(case)
     if case.get("kind") == "resolve":
         return _run_resolve(case)
     if case.get("kind") == "reuse":
